@@ -46,12 +46,12 @@ def natsDistinct : List Nat → Bool
 def isInterval (lo : Nat) (l : List Nat) : Bool :=
   natsDistinct l && l.all fun e => lo ≤ e && e < lo + l.length
 
-def fieldRefEq : FieldRef → FieldRef → Bool
+def IRWF.fieldRefEq : FieldRef → FieldRef → Bool
   | .ctx v f t, .ctx v' f' t' => v == v' && f == f' && decide (t = t')
   | .fcount e r, .fcount e' r' => e == e' && r == r'
   | _, _ => false
 
-def refMem (r : FieldRef) (l : List FieldRef) : Bool := l.any (fieldRefEq r)
+def IRWF.refMem (r : FieldRef) (l : List FieldRef) : Bool := l.any (IRWF.fieldRefEq r)
 
 def filterTags (f : IRFilter) : List FieldRef :=
   match f.right with
@@ -148,7 +148,7 @@ enclosing folds import `chain` -/
 def tagsOkAt (vs : List IRVertex) (fs : List Fold) (chain : List FieldRef) (useVid : Vid)
     (filters : List IRFilter) : Bool :=
   (filters.flatMap filterTags).all fun r =>
-    decide (Frontend.definedAt r ≤ useVid) && (definedIn vs fs r || refMem r chain)
+    decide (Frontend.definedAt r ≤ useVid) && (definedIn vs fs r || IRWF.refMem r chain)
 
 mutual
 def wfTagsC (chain : List FieldRef) : Component → Bool
@@ -172,15 +172,15 @@ def wfImportsC : Component → Bool
 def wfImportsF (pvs : List IRVertex) (pfs : List Fold) : List Fold → Bool
   | [] => true
   | .mk _ _ _ _ _ c imports _ _ :: rest =>
-    imports.all (fun r => refMem r (tagsUsed c) && definedIn pvs pfs r) &&
-    (tagsUsed c).all (fun r => !definedIn pvs pfs r || refMem r imports) &&
+    imports.all (fun r => IRWF.refMem r (tagsUsed c) && definedIn pvs pfs r) &&
+    (tagsUsed c).all (fun r => !definedIn pvs pfs r || IRWF.refMem r imports) &&
     wfImportsC c && wfImportsF pvs pfs rest
 end
 
 /-- no `FieldRef` occurs twice -/
 def refsDistinct : List FieldRef → Bool
   | [] => true
-  | r :: rest => !refMem r rest && refsDistinct rest
+  | r :: rest => !IRWF.refMem r rest && refsDistinct rest
 
 mutual
 /-- clause 6, second half: the imported tags of every fold (at every depth) are pairwise distinct -/
@@ -311,14 +311,14 @@ def indexedOk (q : IRQuery) : Bool := (seeComponent q.variables q.rootComponent 
 /-! ### `IndexedQuery.outputs` -/
 
 /-- `get_optional_vertices_in_component`: edges in Eid order. -/
-def optionalVertices : List IREdge → List Vid → List Vid
+def IRWF.optionalVertices : List IREdge → List Vid → List Vid
   | [], acc => acc
   | e :: rest, acc =>
-    if e.optional || acc.contains e.fromVid then optionalVertices rest (e.toVid :: acc)
-    else optionalVertices rest acc
+    if e.optional || acc.contains e.fromVid then IRWF.optionalVertices rest (e.toVid :: acc)
+    else IRWF.optionalVertices rest acc
 
 /-- `get_output_type`: `folds` = `are_folds_optional`, outermost fold first. -/
-def outputType (at_ : Vid) (ty : QTy) (optional : List Vid) (folds : List Bool) : QTy :=
+def IRWF.outputType (at_ : Vid) (ty : QTy) (optional : List Vid) (folds : List Bool) : QTy :=
   let t := if optional.contains at_ then ty.withNullability true else ty
   folds.foldr (fun b acc => acc.listOf b) t
 
@@ -326,12 +326,12 @@ mutual
 /-- the outputs `add_data_from_component` inserts, in insertion order -/
 def outputsC (folds : List Bool) : Component → List (Name × QTy × Vid)
   | .mk _ _ es fs os =>
-    let opt := optionalVertices es []
-    (os.map fun o => (o.name, outputType o.vid o.ty opt folds, o.vid)) ++ outputsF folds opt fs
+    let opt := IRWF.optionalVertices es []
+    (os.map fun o => (o.name, IRWF.outputType o.vid o.ty opt folds, o.vid)) ++ outputsF folds opt fs
 def outputsF (folds : List Bool) (opt : List Vid) : List Fold → List (Name × QTy × Vid)
   | [] => []
   | .mk _ f t _ _ c _ fouts _ :: rest =>
-    (fouts.map fun n => (n, outputType f Frontend.countTy opt folds, t)) ++
+    (fouts.map fun n => (n, IRWF.outputType f Frontend.countTy opt folds, t)) ++
       outputsC (folds ++ [opt.contains f]) c ++ outputsF folds opt rest
 end
 
